@@ -57,7 +57,17 @@ var autoVariants = []autoVariant{
 var naming = schema.NamingStrategy{}
 
 func genModel(rt *rapid.T) *model {
-	m := &model{Fields: []field{{Name: "ID", Col: "id", Kind: kInt, PK: true}}}
+	m := &model{NK: 1, Fields: []field{{Name: "ID", Col: "id", Kind: kInt, PK: true}}}
+	if rapid.IntRange(0, 3).Draw(rt, "composite") == 0 {
+		// composite key: ID (the member gorm prioritises by name) + Rev, neither auto-incremented
+		m.NK = 2
+		m.Fields[0].NoAuto = true
+		rev := field{Name: "Rev", Col: "rev", Kind: kInt, PK: true, NoAuto: true}
+		if rapid.Bool().Draw(rt, "revstring") {
+			rev.Kind, rev.NoAuto = kString, false
+		}
+		m.Fields = append(m.Fields, rev)
+	}
 	nData := rapid.IntRange(3, 8).Draw(rt, "nfields")
 	nAuto := rapid.SampledFrom([]int{0, 1, 1, 1, 2, 2}).Draw(rt, "nauto")
 	used := map[string]bool{}
@@ -95,20 +105,60 @@ func genModel(rt *rapid.T) *model {
 			case kBool:
 				f.Default = int64(1)
 			}
+			if rapid.Bool().Draw(rt, "dbdefault") {
+				f.DBDefault = map[kind]string{kInt: "(700+77)", kString: "(lower('DFLT'))", kPString: "(lower('PDFLT'))", kFloat: "(7.5+0.25)", kBool: "(1=1)"}[f.Kind]
+			}
 		}
 		m.Fields = append(m.Fields, f)
 	}
 	nRows := rapid.IntRange(3, 6).Draw(rt, "nrows")
-	pool := []int64{1, 2, 3, 4, 5, 6, 7, 8, 9}
-	for len(m.IDs) < nRows {
-		k := rapid.IntRange(0, len(pool)-1).Draw(rt, "rowid")
-		m.IDs = append(m.IDs, pool[k])
-		pool = append(pool[:k], pool[k+1:]...)
+	if m.NK == 1 {
+		pool := []int64{1, 2, 3, 4, 5, 6, 7, 8, 9}
+		for len(m.IDs) < nRows {
+			k := rapid.IntRange(0, len(pool)-1).Draw(rt, "rowid")
+			m.IDs = append(m.IDs, pool[k])
+			pool = append(pool[:k], pool[k+1:]...)
+		}
+		sort.Slice(m.IDs, func(i, j int) bool { return m.IDs[i] < m.IDs[j] })
+		for _, id := range m.IDs {
+			m.Rows = append(m.Rows, rowKey{ID: id, N: id})
+		}
+	} else {
+		// three ids x four revisions (revision zero / "" is an ordinary value): rows share key members
+		var pool []rowKey
+		for id := int64(1); id <= 3; id++ {
+			for j := int64(0); j < 4; j++ {
+				pool = append(pool, rowKey{ID: id, Rev: m.revValue(j), N: id*10 + j + 1})
+			}
+		}
+		for len(m.Rows) < nRows {
+			k := rapid.IntRange(0, len(pool)-1).Draw(rt, "rowkey")
+			m.Rows = append(m.Rows, pool[k])
+			pool = append(pool[:k], pool[k+1:]...)
+		}
+		sort.Slice(m.Rows, func(i, j int) bool { return m.Rows[i].N < m.Rows[j].N })
+		seen := map[int64]bool{}
+		for _, r := range m.Rows {
+			if !seen[r.ID] {
+				seen[r.ID] = true
+				m.IDs = append(m.IDs, r.ID)
+			}
+		}
 	}
-	sort.Slice(m.IDs, func(i, j int) bool { return m.IDs[i] < m.IDs[j] })
 	m.NoRet = rapid.IntRange(0, 3).Draw(rt, "noreturning") == 0
 	m.build()
 	return m
+}
+
+// revValue is the j-th value of the second key member (j = 0: the zero value).
+func (m *model) revValue(j int64) cell {
+	if m.NK < 2 {
+		return nil
+	}
+	if m.Fields[1].Kind == kString {
+		return []string{"", "a", "b", "c", "d"}[j]
+	}
+	return j
 }
 
 // genVal draws a value for field f: zero, a fresh non-zero sentinel, or (map
@@ -166,7 +216,7 @@ func spell(rt *rapid.T, f field, label string) string {
 func genSelect(rt *rapid.T, m *model, o *op, withKey bool) string {
 	form := rapid.SampledFrom([]string{"none", "none", "none", "list", "list", "star", "omit", "omit", "star+omit", "list+omit"}).Draw(rt, "selform")
 	var data []int
-	for i := 1; i < len(m.Fields); i++ {
+	for i := m.NK; i < len(m.Fields); i++ {
 		data = append(data, i)
 	}
 	inSel := map[int]bool{}
@@ -182,8 +232,10 @@ func genSelect(rt *rapid.T, m *model, o *op, withKey bool) string {
 			inSel[i] = true
 			o.Select = append(o.Select, spell(rt, m.Fields[i], "sel1"))
 		}
-		if withKey && rapid.IntRange(0, 2).Draw(rt, "selkey") > 0 {
-			o.Select = append(o.Select, spell(rt, m.Fields[0], "selkey"))
+		if withKey && (m.NK == 2 || rapid.IntRange(0, 2).Draw(rt, "selkey") > 0) {
+			for k := 0; k < m.NK; k++ { // members of a composite key are always selected
+				o.Select = append(o.Select, spell(rt, m.Fields[k], "selkey"))
+			}
 		}
 	}
 	if strings.HasPrefix(form, "star") {
@@ -194,6 +246,9 @@ func genSelect(rt *rapid.T, m *model, o *op, withKey bool) string {
 			if !inSel[i] && rapid.IntRange(0, 2).Draw(rt, "omit") == 0 {
 				o.Omit = append(o.Omit, spell(rt, m.Fields[i], "omit"))
 			}
+		}
+		if withKey && m.NK == 1 && rapid.IntRange(0, 3).Draw(rt, "omitkey") == 0 {
+			o.Omit = append(o.Omit, spell(rt, m.Fields[0], "omitkey"))
 		}
 		if len(o.Omit) == 0 {
 			var free []int
@@ -214,7 +269,7 @@ func genSelect(rt *rapid.T, m *model, o *op, withKey bool) string {
 
 func genCond(rt *rapid.T, m *model) *cond {
 	var cols, known []int
-	for i := 1; i < len(m.Fields); i++ {
+	for i := m.NK; i < len(m.Fields); i++ {
 		f := m.Fields[i]
 		if (f.Kind == kInt || f.Kind == kString) && f.Auto == "" {
 			cols = append(cols, i)
@@ -243,17 +298,17 @@ func genCond(rt *rapid.T, m *model) *cond {
 		}
 	case "map":
 		c.F = rapid.SampledFrom(known).Draw(rt, "condcol")
-		c.V = m.sentinel(rapid.SampledFrom(m.IDs).Draw(rt, "condrow"), c.F)
+		c.V = m.sentinel(m.Rows[rapid.IntRange(0, len(m.Rows)-1).Draw(rt, "condrow")], c.F)
 	default:
 		c.F = rapid.SampledFrom(cols).Draw(rt, "condcol")
-		c.V = m.sentinel(rapid.SampledFrom(m.IDs).Draw(rt, "condrow"), c.F)
+		c.V = m.sentinel(m.Rows[rapid.IntRange(0, len(m.Rows)-1).Draw(rt, "condrow")], c.F)
 	}
 	return c
 }
 
 func genStructVals(rt *rapid.T, m *model, label string) map[int]gval {
 	vals := map[int]gval{}
-	for i := 1; i < len(m.Fields); i++ {
+	for i := m.NK; i < len(m.Fields); i++ {
 		if g := genVal(rt, m, i, false, fmt.Sprintf("%s.f%d", label, i)); !g.Zero {
 			vals[i] = g
 		}
@@ -267,7 +322,7 @@ func genStructVals(rt *rapid.T, m *model, label string) map[int]gval {
 func genKVs(rt *rapid.T, m *model, noAutoUpdate, noIgnored, allowExpr bool, min int, label string) []kv {
 	var out []kv
 	var elig []int
-	for i := 1; i < len(m.Fields); i++ {
+	for i := m.NK; i < len(m.Fields); i++ {
 		f := m.Fields[i]
 		if noAutoUpdate && f.Auto == "update" {
 			continue
@@ -322,7 +377,7 @@ func genOp(rt *rapid.T, m *model) (*op, string) {
 				}
 			}
 		}
-		if len(o.Select) == 1 && o.Select[0] == "*" && o.PK == 0 && (o.Mode == "value" || strings.HasPrefix(o.Mode, "model+")) {
+		if len(o.Select) == 1 && o.Select[0] == "*" && (o.PK == 0 || (m.NK == 2 && isZeroCell(o.PK2))) && (o.Mode == "value" || strings.HasPrefix(o.Mode, "model+")) {
 			o.Other = nil
 			// domain: Select("*") with a separate value whose key is zero - whether "all fields"
 			// includes the value's (zero) primary key is not documented
@@ -336,7 +391,7 @@ func genOp(rt *rapid.T, m *model) (*op, string) {
 		genTarget(rt, m, o)
 		selForm = genSelect(rt, m, o, false)
 		var elig []int
-		for i := 1; i < len(m.Fields); i++ {
+		for i := m.NK; i < len(m.Fields); i++ {
 			if !(o.hooks() && m.Fields[i].Auto == "update") {
 				elig = append(elig, i)
 			}
@@ -344,18 +399,21 @@ func genOp(rt *rapid.T, m *model) (*op, string) {
 		i := rapid.SampledFrom(elig).Draw(rt, "col")
 		o.Map = []kv{{Key: spell(rt, m.Fields[i], "col"), F: i, V: genVal(rt, m, i, true, "colv")}}
 	case "save":
-		switch rapid.IntRange(0, 9).Draw(rt, "savekey") {
-		case 0, 1:
-			o.PK = 0
-		case 2, 3:
-			o.PK = 50 // no such row
+		switch k := rapid.IntRange(0, 9).Draw(rt, "savekey"); {
+		case k <= 1:
+			o.PK, o.PK2 = 0, m.revValue(0)
+			if m.NK == 2 && k == 1 {
+				o.PK2 = m.revValue(2) // only the first member is zero
+			}
+		case k <= 3:
+			o.PK, o.PK2 = 50, m.revValue(1) // no such row
 		default:
-			o.PK = rapid.SampledFrom(m.IDs).Draw(rt, "savepk")
+			genKey(rt, m, o)
 		}
 		if rapid.IntRange(0, 2).Draw(rt, "savecond") == 0 {
 			o.Cond = genCond(rt, m)
 		}
-		selForm = genSelect(rt, m, o, false)
+		selForm = genSelect(rt, m, o, m.NK == 2) // composite: a Select list names the key members (Save may insert)
 		o.Struct = genStructVals(rt, m, "v")
 	default:
 		selForm = genCreate(rt, m, o)
@@ -365,16 +423,34 @@ func genOp(rt *rapid.T, m *model) (*op, string) {
 
 // genTarget draws model key and/or condition (never neither: that is C09's subject).
 func genTarget(rt *rapid.T, m *model, o *op) {
+	o.PK2 = m.revValue(0)
 	switch rapid.IntRange(0, 9).Draw(rt, "target") {
 	case 0, 1, 2:
-		o.PK = rapid.SampledFrom(m.IDs).Draw(rt, "pk")
+		genKey(rt, m, o)
 	case 3, 4, 5, 6:
 		o.Cond = genCond(rt, m)
 	case 7, 8:
-		o.PK = rapid.SampledFrom(m.IDs).Draw(rt, "pk")
+		genKey(rt, m, o)
 		o.Cond = genCond(rt, m)
 	default:
-		o.PK = 50 // no such row
+		o.PK, o.PK2 = 50, m.revValue(1) // no such row
+	}
+	if o.PK == 0 && isZeroCell(o.PK2) && o.Cond == nil {
+		o.Cond = genCond(rt, m) // a stored key may consist of zero members only
+	}
+}
+
+// genKey takes the key of a stored row; for a composite key one member may be left zero.
+func genKey(rt *rapid.T, m *model, o *op) {
+	r := m.Rows[rapid.IntRange(0, len(m.Rows)-1).Draw(rt, "keyrow")]
+	o.PK, o.PK2 = r.ID, r.Rev
+	if m.NK == 2 {
+		switch rapid.IntRange(0, 5).Draw(rt, "partial") {
+		case 0, 1:
+			o.PK2 = m.revValue(0)
+		case 2:
+			o.PK = 0
+		}
 	}
 }
 
@@ -395,7 +471,7 @@ func genCreate(rt *rapid.T, m *model, o *op) string {
 	selForm := genSelect(rt, m, o, true)
 	sel := m.selection(o)
 
-	free := append([]int64(nil), m.IDs...)
+	free := append([]rowKey(nil), m.Rows...)
 	var keys []kv // key set shared by the rows of a map create
 	if isMap {
 		// domain: a map key naming an ignored field is not generated on create paths (see report)
@@ -408,13 +484,16 @@ func genCreate(rt *rapid.T, m *model, o *op) string {
 	for r := 0; r < n; r++ {
 		row := createRow{}
 		switch k := rapid.IntRange(0, 5).Draw(rt, "newkey"); {
-		case k <= 1:
+		case k <= 1 && m.NK == 1:
 			row.PK = 0
 		case k <= 3 || !hit || len(free) == 0:
 			row.PK = 100 + int64(r)
+			if m.NK == 2 {
+				row.PK2 = m.revValue(int64(rapid.IntRange(0, 3).Draw(rt, "newrev")))
+			}
 		default:
 			j := rapid.IntRange(0, len(free)-1).Draw(rt, "hit")
-			row.PK = free[j]
+			row.PK, row.PK2 = free[j].ID, free[j].Rev
 			free = append(free[:j], free[j+1:]...)
 		}
 		if isMap {
@@ -423,6 +502,9 @@ func genCreate(rt *rapid.T, m *model, o *op) string {
 			}
 			if row.PK != 0 {
 				row.Keys = append(row.Keys, kv{Key: spell(rt, m.Fields[0], "keykey"), F: 0, V: gval{Cell: row.PK}})
+			}
+			if m.NK == 2 {
+				row.Keys = append(row.Keys, kv{Key: spell(rt, m.Fields[1], "keykey2"), F: 1, V: gval{Cell: row.PK2, Zero: isZeroCell(row.PK2)}})
 			}
 		} else {
 			row.Vals = genStructVals(rt, m, fmt.Sprintf("r%d", r))
@@ -445,12 +527,58 @@ func genCreate(rt *rapid.T, m *model, o *op) string {
 			}
 		}
 	}
-	if predict(m, &table{rows: map[int64][]cell{}}, o).empty {
+	if !isMap && n > 1 {
+		// domain (SQLite): a multi-row INSERT cannot say DEFAULT for one element only, so the elements of
+		// one batch carry a value for a database-default column either all or none
+		for i, f := range m.Fields {
+			if f.DBDefault == "" {
+				continue
+			}
+			var first *gval
+			for _, r := range o.Rows {
+				if g, ok := r.Vals[i]; ok && first == nil {
+					g := g
+					first = &g
+				}
+			}
+			if first != nil {
+				for _, r := range o.Rows {
+					if _, ok := r.Vals[i]; !ok {
+						r.Vals[i] = *first
+					}
+				}
+			}
+		}
+	}
+	if predict(m, &table{rows: map[rkey][]cell{}}, o).empty {
 		// domain: a row that proposes no column at all ("INSERT .. DEFAULT VALUES": one row whatever
 		// the batch size, and no ON CONFLICT clause in SQLite) - drop Select/Omit, then give keys
 		o.Select, o.Omit, selForm = nil, nil, "none"
 		sel = m.selection(o)
-		if predict(m, &table{rows: map[int64][]cell{}}, o).empty {
+		if !isMap && n > 1 {
+		// domain (SQLite): a multi-row INSERT cannot say DEFAULT for one element only, so the elements of
+		// one batch carry a value for a database-default column either all or none
+		for i, f := range m.Fields {
+			if f.DBDefault == "" {
+				continue
+			}
+			var first *gval
+			for _, r := range o.Rows {
+				if g, ok := r.Vals[i]; ok && first == nil {
+					g := g
+					first = &g
+				}
+			}
+			if first != nil {
+				for _, r := range o.Rows {
+					if _, ok := r.Vals[i]; !ok {
+						r.Vals[i] = *first
+					}
+				}
+			}
+		}
+	}
+	if predict(m, &table{rows: map[rkey][]cell{}}, o).empty {
 			for i := range o.Rows {
 				o.Rows[i].PK = 300 + int64(i)
 				if isMap {
@@ -462,9 +590,9 @@ func genCreate(rt *rapid.T, m *model, o *op) string {
 	if o.Conflict == "doupdates" {
 		// D: the clause names permitted columns of the proposed rows only
 		var elig []int
-		for i := 1; i < len(m.Fields); i++ {
+		for i := m.NK; i < len(m.Fields); i++ {
 			known, cre, upd := m.Fields[i].perms()
-			if !known || !cre || !upd || sel.omit[i] || !sel.in(i) {
+			if !known || !cre || !upd || sel.omit[i] || !sel.in(i) || m.Fields[i].DBDefault != "" {
 				continue
 			}
 			if isMap {
@@ -513,10 +641,18 @@ func goValue(m *model, fi int, g gval) interface{} {
 	return g.Cell
 }
 
-func (m *model) newValue(pk int64, vals map[int]gval) reflect.Value {
+func (m *model) newValue(pk int64, pk2 cell, vals map[int]gval) reflect.Value {
 	p := reflect.New(m.Typ)
 	v := p.Elem()
 	v.Field(0).SetInt(pk)
+	if m.NK == 2 {
+		switch x := pk2.(type) {
+		case int64:
+			v.Field(1).SetInt(x)
+		case string:
+			v.Field(1).SetString(x)
+		}
+	}
 	for i, g := range vals {
 		v.Field(i).Set(reflect.ValueOf(goValue(m, i, g)))
 	}
@@ -570,7 +706,11 @@ func run(d *testdb.DB, m *model, o *op) error {
 		for i, c := range o.DoCols {
 			cols[i] = m.Fields[c].Col
 		}
-		tx = tx.Clauses(clause.OnConflict{Columns: []clause.Column{{Name: "id"}}, DoUpdates: clause.AssignmentColumns(cols)})
+		target := []clause.Column{{Name: "id"}}
+		if m.NK == 2 {
+			target = append(target, clause.Column{Name: m.Fields[1].Col})
+		}
+		tx = tx.Clauses(clause.OnConflict{Columns: target, DoUpdates: clause.AssignmentColumns(cols)})
 	}
 
 	switch o.Kind {
@@ -578,14 +718,14 @@ func run(d *testdb.DB, m *model, o *op) error {
 		var val interface{}
 		switch o.Mode {
 		case "model+value", "model+pointer", "model+other":
-			tx = tx.Model(m.newValue(o.PK, nil).Interface())
-			vk := int64(0)
+			tx = tx.Model(m.newValue(o.PK, o.PK2, nil).Interface())
+			vk, vk2 := int64(0), m.revValue(0)
 			if len(o.Select) == 1 && o.Select[0] == "*" {
-				vk = o.PK // see genOp: with "*" the separate value carries the model's key
+				vk, vk2 = o.PK, o.PK2 // see genOp: with "*" the separate value carries the model's key
 			}
-			v := m.newValue(vk, o.Struct)
+			v := m.newValue(vk, vk2, o.Struct)
 			if o.Mode == "model+other" {
-				w := &model{Fields: append([]field(nil), m.Fields...)}
+				w := &model{NK: m.NK, Fields: append([]field(nil), m.Fields...)}
 				for i := range w.Fields {
 					w.Fields[i].Perm = o.Other[i]
 					if known, _, _ := w.Fields[i].perms(); !known {
@@ -595,7 +735,7 @@ func run(d *testdb.DB, m *model, o *op) error {
 					}
 				}
 				w.build()
-				v = w.newValue(vk, o.Struct)
+				v = w.newValue(vk, vk2, o.Struct)
 			}
 			if o.Mode != "model+pointer" {
 				val = v.Elem().Interface()
@@ -603,11 +743,11 @@ func run(d *testdb.DB, m *model, o *op) error {
 				val = v.Interface()
 			}
 		case "pointer":
-			val = m.newValue(o.PK, o.Struct).Interface()
+			val = m.newValue(o.PK, o.PK2, o.Struct).Interface()
 		case "value":
-			val = m.newValue(o.PK, o.Struct).Elem().Interface()
+			val = m.newValue(o.PK, o.PK2, o.Struct).Elem().Interface()
 		case "same":
-			v := m.newValue(o.PK, o.Struct)
+			v := m.newValue(o.PK, o.PK2, o.Struct)
 			tx = tx.Model(v.Interface())
 			val = v.Interface()
 		}
@@ -616,21 +756,21 @@ func run(d *testdb.DB, m *model, o *op) error {
 		}
 		return tx.UpdateColumns(val).Error
 	case "updates-map":
-		return tx.Model(m.newValue(o.PK, nil).Interface()).Updates(mapOf(m, o.Map)).Error
+		return tx.Model(m.newValue(o.PK, o.PK2, nil).Interface()).Updates(mapOf(m, o.Map)).Error
 	case "updatecolumns-map":
-		return tx.Model(m.newValue(o.PK, nil).Interface()).UpdateColumns(mapOf(m, o.Map)).Error
+		return tx.Model(m.newValue(o.PK, o.PK2, nil).Interface()).UpdateColumns(mapOf(m, o.Map)).Error
 	case "update":
-		return tx.Model(m.newValue(o.PK, nil).Interface()).Update(o.Map[0].Key, mapOf(m, o.Map)[o.Map[0].Key]).Error
+		return tx.Model(m.newValue(o.PK, o.PK2, nil).Interface()).Update(o.Map[0].Key, mapOf(m, o.Map)[o.Map[0].Key]).Error
 	case "updatecolumn":
-		return tx.Model(m.newValue(o.PK, nil).Interface()).UpdateColumn(o.Map[0].Key, mapOf(m, o.Map)[o.Map[0].Key]).Error
+		return tx.Model(m.newValue(o.PK, o.PK2, nil).Interface()).UpdateColumn(o.Map[0].Key, mapOf(m, o.Map)[o.Map[0].Key]).Error
 	case "save":
-		return tx.Save(m.newValue(o.PK, o.Struct).Interface()).Error
+		return tx.Save(m.newValue(o.PK, o.PK2, o.Struct).Interface()).Error
 	case "create":
-		return tx.Create(m.newValue(o.Rows[0].PK, o.Rows[0].Vals).Interface()).Error
+		return tx.Create(m.newValue(o.Rows[0].PK, o.Rows[0].PK2, o.Rows[0].Vals).Interface()).Error
 	case "create-slice", "create-batches", "save-slice":
 		sl := reflect.New(reflect.SliceOf(m.Typ))
 		for _, r := range o.Rows {
-			sl.Elem().Set(reflect.Append(sl.Elem(), m.newValue(r.PK, r.Vals).Elem()))
+			sl.Elem().Set(reflect.Append(sl.Elem(), m.newValue(r.PK, r.PK2, r.Vals).Elem()))
 		}
 		if o.Kind == "create-slice" {
 			return tx.Create(sl.Interface()).Error
@@ -640,7 +780,7 @@ func run(d *testdb.DB, m *model, o *op) error {
 		}
 		return tx.CreateInBatches(sl.Interface(), o.Batch).Error
 	case "create-map":
-		return tx.Model(m.newValue(0, nil).Interface()).Create(mapOf(m, o.Rows[0].Keys)).Error
+		return tx.Model(m.newValue(0, m.revValue(0), nil).Interface()).Create(mapOf(m, o.Rows[0].Keys)).Error
 	case "create-maps":
 		var ms []map[string]interface{}
 		for _, r := range o.Rows {
@@ -648,7 +788,7 @@ func run(d *testdb.DB, m *model, o *op) error {
 		}
 		// &ms, not ms: with a RETURNING dialect gorm.Scan cannot back-fill a non-pointer []map (an
 		// error, no write - outside this property; see the report)
-		return tx.Model(m.newValue(0, nil).Interface()).Create(&ms).Error
+		return tx.Model(m.newValue(0, m.revValue(0), nil).Interface()).Create(&ms).Error
 	}
 	panic("harness: op kind " + o.Kind)
 }
@@ -657,14 +797,15 @@ func run(d *testdb.DB, m *model, o *op) error {
 
 const ruleText = "C10: a model type built with reflect.StructOf (integer key + 3-8 data fields of kind int/string/bool/float/*string, " +
 	"random permission tags <-:create, <-:update, <-:false, <-, ->, ->:false, ->;<-:create, ->;<-:update, ->:false;<-:create, -, -:all, -:migration, " +
-	"optional column: tags, 0-2 tracked time fields by name or autoUpdateTime/autoCreateTime[:milli|:nano] tag) over a table made by raw DDL with a column for every field " +
+	"optional column: tags, optional default:(expr) tags with the same DEFAULT in the DDL, 0-2 tracked time fields by name or autoUpdateTime/autoCreateTime[:milli|:nano] tag; " +
+	"one model in four has a composite key ID+Rev (integer or string, not auto-incremented) with rows sharing key members and revision zero as an ordinary value) over a table made by raw DDL with a column for every field " +
 	"and 3-6 rows of unique sentinel cells; one write (Updates struct/map, Update, UpdateColumn, UpdateColumns struct/map, Save, Create, Create slice, CreateInBatches, " +
 	"Create map/maps, each create also as upsert DoNothing/UpdateAll/DoUpdates) with a Select/Omit form (none, list by field name or column name, '*', Omit, combinations), " +
-	"zero, non-zero and gorm.Expr values, and a model key and/or a Where condition; the table after the write must equal, cell by cell, the table predicted by an independent " +
+	"zero, non-zero and gorm.Expr values, and a model key (composite: possibly with exactly one zero member) and/or a Where condition; the table after the write must equal, cell by cell, the table predicted by an independent " +
 	"model of the statement. non-trivial = a field with a restricting tag is given a value, a zero value is given, and the rows the write may touch are a non-empty strict subset; " +
 	"distinct = model + row keys + operation. Not generated (documentation silent): updates with neither key nor condition (C09), key collisions without an OnConflict clause (C05), " +
 	"Select('*') with a separate value whose key is zero, a hook-running map update that names a tracked update-time field, a create-from-map key that names an ignored field, " +
-	"rows that propose no column, DoUpdates naming a denied column; accepted either way: tracked time cells of created rows that a Select list / a map does not name, and the creation time under UpdateAll"
+	"rows that propose no column, DoUpdates naming a denied column; batches mixing zero and non-zero values of a default:(expr) column (SQLite has no DEFAULT keyword in VALUES); accepted either way: rows matching only the non-zero member of a partly zero composite key (update paths), the row matching a partly zero composite key exactly under Save (updated, or rejected by the insert path), tracked time cells of created rows that a Select list / a map does not name, and the creation time under UpdateAll"
 
 type caseInfo struct {
 	restrictedGiven, zeroGiven bool
@@ -688,7 +829,7 @@ func analyse(m *model, o *op, selForm string) caseInfo {
 		}
 	}
 	structVals := func(vals map[int]gval) {
-		for i := 1; i < len(m.Fields); i++ {
+		for i := m.NK; i < len(m.Fields); i++ {
 			if g, ok := vals[i]; ok {
 				note(i, g)
 			} else {
@@ -713,7 +854,7 @@ func analyse(m *model, o *op, selForm string) caseInfo {
 			structVals(r.Vals)
 		}
 	}
-	for _, f := range m.Fields[1:] {
+	for _, f := range m.Fields[m.NK:] {
 		t := f.Perm
 		if t == "" {
 			t = "none"
@@ -731,6 +872,12 @@ func analyse(m *model, o *op, selForm string) caseInfo {
 		}
 		if f.ColTag {
 			ci.classes["column-tag"] = true
+		}
+		if f.DBDefault != "" {
+			ci.classes["db-default-expr"] = true
+			if f.restricted() {
+				ci.classes["db-default-expr:restricted"] = true
+			}
 		}
 	}
 	ci.classes["op:"+o.Kind] = true
@@ -760,6 +907,12 @@ func analyse(m *model, o *op, selForm string) caseInfo {
 	if o.Conflict != "" {
 		ci.classes["upsert:"+o.Conflict] = true
 	}
+	if m.NK == 2 {
+		ci.classes["key:composite-"+m.Fields[1].Kind.String()] = true
+		if !o.isCreate() && (o.PK == 0) != isZeroCell(o.PK2) {
+			ci.classes["key:one-member-zero"] = true
+		}
+	}
 	if !o.isCreate() {
 		switch {
 		case o.PK != 0 && o.Cond != nil:
@@ -777,11 +930,56 @@ func analyse(m *model, o *op, selForm string) caseInfo {
 
 // saveConditionMiss: Save of a value whose row exists but fails the chain's condition.
 func saveConditionMiss(before *table, o *op) bool {
-	if o.Kind != "save" || o.PK == 0 || o.Cond == nil || o.Select != nil {
+	if o.Kind != "save" || o.PK == 0 || o.Cond == nil || o.Select != nil || (o.PK2 != nil && isZeroCell(o.PK2)) {
 		return false
 	}
-	row, ok := before.rows[o.PK]
+	var m model
+	m.NK = 1
+	if o.PK2 != nil {
+		m.NK = 2
+	}
+	row, ok := before.rows[m.keyOf(o.PK, o.PK2)]
 	return ok && !o.Cond.matches(row)
+}
+
+// doNothingUnreadableDefault: batch create that may end in ON CONFLICT DO NOTHING (explicit, or an
+// UpdateAll with nothing to update) on a RETURNING dialect over a model with an unreadable
+// database-default column (open finding: gorm.Scan panics).
+func doNothingUnreadableDefault(m *model, o *op) bool {
+	if m.NoRet || (o.Kind != "create-slice" && o.Kind != "create-batches" && o.Kind != "save-slice") {
+		return false
+	}
+	if o.Kind != "save-slice" && o.Conflict != "nothing" && o.Conflict != "updateall" {
+		return false
+	}
+	for _, f := range m.Fields {
+		if f.DBDefault != "" && strings.HasPrefix(f.Perm, "->:false") {
+			return true
+		}
+	}
+	return false
+}
+
+// returningSingleUnreadableDefault: a struct create (or a Save, which may insert) on a RETURNING dialect
+// whose RETURNING list is exactly one column without read permission (open finding: "unsupported Scan").
+// Only composite-key models qualify: an auto-increment key is always a second RETURNING column.
+func returningSingleUnreadableDefault(m *model, o *op) bool {
+	if m.NoRet || m.NK != 2 {
+		return false
+	}
+	switch o.Kind {
+	case "create", "create-slice", "create-batches", "save-slice", "save":
+	default:
+		return false
+	}
+	n, unreadable := 0, false
+	for _, f := range m.Fields {
+		if known, _, _ := f.perms(); known && f.DBDefault != "" {
+			n++
+			unreadable = strings.HasPrefix(f.Perm, "->:false")
+		}
+	}
+	return n == 1 && unreadable
 }
 
 func checkCase(rt *rapid.T, m *model, o *op, selForm string) {
@@ -790,15 +988,34 @@ func checkCase(rt *rapid.T, m *model, o *op, selForm string) {
 	d := openTable(m)
 	defer d.Close()
 	before := snapshot(d, m)
-	if len(before.rows) != len(m.IDs) {
-		rt.Fatalf("harness: seeded %d rows, table holds %d", len(m.IDs), len(before.rows))
+	if len(before.rows) != len(m.Rows) {
+		rt.Fatalf("harness: seeded %d rows, table holds %d", len(m.Rows), len(before.rows))
 	}
 	if saveConditionMiss(before, o) && harness.OpenClass("C10", "save-condition-miss") {
 		evid.Excluded("save-condition-miss")
 		return
 	}
+	if returningSingleUnreadableDefault(m, o) && harness.OpenClass("C10", "returning-single-unreadable-default") {
+		evid.Excluded("returning-single-unreadable-default")
+		return
+	}
+	if doNothingUnreadableDefault(m, o) && harness.OpenClass("C10", "donothing-unreadable-default") {
+		evid.Excluded("donothing-unreadable-default")
+		return
+	}
 	p := predict(m, before, o)
-	err := run(d, m, o)
+	err := func() (err error) {
+		defer func() {
+			if r := recover(); r != nil {
+				err = fmt.Errorf("panic inside gorm: %v", r)
+			}
+		}()
+		return run(d, m, o)
+	}()
+	if err != nil && strings.HasPrefix(err.Error(), "panic inside gorm") {
+		// the statement's cursor / transaction may still be open: no snapshot
+		rt.Fatalf("C10 violated: %v\n  model: %s\n  operation: %s\n  case: %s", err, m, o.render(m), desc)
+	}
 	after := snapshot(d, m)
 
 	ci := analyse(m, o, selForm)
@@ -826,7 +1043,7 @@ func checkCase(rt *rapid.T, m *model, o *op, selForm string) {
 		rt.Fatalf("C10 violated: %s\n  model: %s\n  operation: %s\n  table before:%s\n  table after:%s\n  predicted:%s\n  case: %s",
 			what, m, o.render(m), before.render(m), after.render(m), p.want.render(m), desc)
 	}
-	if err != nil {
+	if err != nil && !p.errOK {
 		fail(fmt.Sprintf("the write returned an error the property does not allow: %v", err))
 	}
 	if ds := diff(m, p.want, after); len(ds) > 0 {
@@ -873,5 +1090,64 @@ func TestC10WitnessSaveConditionMiss(t *testing.T) {
 	}
 	if name != "a" || qty != 10 {
 		t.Errorf("C10 violated: Table(c10_w).Where(\"qty = ?\", 999).Save(&{ID:1, Name:x, Qty:5}) changed row id=1, which does not match the condition (qty is 10): row now holds name=%q qty=%d, want name=\"a\" qty=10", name, qty)
+	}
+}
+
+type witnessDflt struct {
+	ID   int64 `gorm:"primaryKey"`
+	Name string
+	Code string `gorm:"default:(lower('X'));->:false;<-:create"`
+}
+
+// Batch create with ON CONFLICT DO NOTHING on a RETURNING dialect, the model having a database-default
+// column without read permission: gorm.Scan keeps a nil entry for the unreadable RETURNING column and
+// dereferences it in its DO NOTHING bookkeeping (scan.go, "field.ValueOf" on a nil field) - a panic
+// that also leaves the statement's cursor and transaction open.
+func TestC10WitnessDoNothingUnreadableDefault(t *testing.T) {
+	d := testdb.Open(testdb.Options{Config: gorm.Config{NowFunc: func() time.Time { return nowTime }}})
+	defer d.Close()
+	if _, err := d.SQL.Exec("CREATE TABLE c10_w2 (id integer PRIMARY KEY, name text, code text DEFAULT (lower('X')))"); err != nil {
+		t.Fatalf("harness: %v", err)
+	}
+	var err error
+	func() {
+		defer func() {
+			if r := recover(); r != nil {
+				err = fmt.Errorf("panic inside gorm: %v", r)
+			}
+		}()
+		rows := []witnessDflt{{Name: "a"}, {Name: "b"}}
+		err = d.DB.Table("c10_w2").Clauses(clause.OnConflict{DoNothing: true}).Create(&rows).Error
+	}()
+	if err != nil {
+		t.Fatalf("C10 violated: Clauses(OnConflict{DoNothing}).Create(&[]T{{Name:a},{Name:b}}) with T.Code `default:(lower('X'));->:false;<-:create`: %v", err)
+	}
+	var n int
+	if err := d.SQL.QueryRow("SELECT count(*) FROM c10_w2 WHERE code = 'x'").Scan(&n); err != nil || n != 2 {
+		t.Errorf("C10 violated: expected two new rows holding the column default, found %d (%v)", n, err)
+	}
+}
+
+type witnessPair struct {
+	ID   int64  `gorm:"primaryKey;autoIncrement:false"`
+	Rev  int64  `gorm:"primaryKey;autoIncrement:false"`
+	Code string `gorm:"default:(lower('X'));->:false;<-:create"`
+}
+
+// Create on a RETURNING dialect where the RETURNING list is exactly one column and that column has no
+// read permission: gorm.Scan has no field for it and scanIntoStruct then scans the single column into
+// the whole struct ("unsupported Scan"); the INSERT is rolled back with the error.
+func TestC10WitnessReturningSingleUnreadableDefault(t *testing.T) {
+	d := testdb.Open(testdb.Options{Config: gorm.Config{NowFunc: func() time.Time { return nowTime }}})
+	defer d.Close()
+	if _, err := d.SQL.Exec("CREATE TABLE c10_w3 (id integer, rev integer, code text DEFAULT (lower('X')), PRIMARY KEY (id, rev))"); err != nil {
+		t.Fatalf("harness: %v", err)
+	}
+	if err := d.DB.Table("c10_w3").Create(&witnessPair{ID: 1, Rev: 1}).Error; err != nil {
+		t.Fatalf("C10 violated: Create(&T{ID:1, Rev:1}) with T.Code `default:(lower('X'));->:false;<-:create` (the only RETURNING column): %v", err)
+	}
+	var n int
+	if err := d.SQL.QueryRow("SELECT count(*) FROM c10_w3 WHERE code = 'x'").Scan(&n); err != nil || n != 1 {
+		t.Errorf("C10 violated: expected one new row holding the column default, found %d (%v)", n, err)
 	}
 }
